@@ -144,7 +144,7 @@ end
 /-- `Conf::parse_token(head)` on an object whose `subkeys` the caller keeps -/
 def parseToken (fuel : Nat) (head : List Char) : Res := loop fuel [] false head
 
-/-- the `while(*str)` loop of `from_string` (fix e0884f0: a `}` here throws) -/
+/-- the `while(*str)` loop of `from_string` (fix 0496ec2: a `}` here throws) -/
 def top : Nat → List Conf → List Char → Except Err (List Conf)
   | 0, _, _ => .error .fuel
   | _ + 1, acc, [] => .ok acc
@@ -180,7 +180,7 @@ def quoted : List Char → List Char → Except Err (List Char × List Char)
     else if c = '"' then .ok (k, cs)
     else quoted (k ++ [c]) cs
 
-/-- `top` before fix e0884f0: no test for `}`; `parse_token` returns its argument. -/
+/-- `top` before fix 0496ec2: no test for `}`; `parse_token` returns its argument. -/
 def top (pt : Nat → List Char → Res) : Nat → List Conf → List Char → Except Err (List Conf)
   | 0, _, _ => .error .fuel
   | _ + 1, acc, [] => .ok acc
